@@ -341,8 +341,13 @@ func (ir *ifdReader) readUint32(ifd ifds.Ifd) (uint32, error) {
 }
 
 func tagFromBuffer(ifd ifds.Ifd, buf []byte) (t Tag, err error) {
-	tagID := tag.ID(ifd.ByteOrder.Uint16(buf[:2]))                  // TagID
-	tagType := tag.Type(ifd.ByteOrder.Uint16(buf[2:4]))             // TagType
+	tagID := tag.ID(ifd.ByteOrder.Uint16(buf[:2]))      // TagID
+	tagType := tag.Type(ifd.ByteOrder.Uint16(buf[2:4])) // TagType
+	if ifd.ByteOrder.Uint16(buf[2:4]) > uint16(tag.TypeDouble) {
+		// Not a TIFF field type. The 16-bit code must not be truncated to 8 bits, and the
+		// pseudo types (ASCII without NUL, IFD) are internal: a file cannot declare them.
+		tagType = tag.TypeUnknown
+	}
 	unitCount := ifd.ByteOrder.Uint32(buf[4:8])                     // UnitCount
 	valueOffset := ifd.ByteOrder.Uint32(buf[8:12]) + ifd.BaseOffset // ValueOffset
 
